@@ -7,5 +7,5 @@ LOGS="${1:-/dev/shm/seedall_logs}"
 mkdir -p "$LOGS"
 run() { d=$1; p=${d%%-*}; sleep $((RANDOM % 6)); /venv/bin/python "$ROOT/harness/seedtest.py" "$ROOT/seeded/$d" $p > "$LOGS/re_$d.log" 2>&1; echo "done $d: $(grep 'exit=' "$LOGS/re_$d.log" | tr '\n' ' ')"; }
 export -f run; export ROOT LOGS
-ls "$ROOT/seeded" | grep '^C[0-9][0-9]-' | xargs -P 3 -I{} bash -c 'run {}'
+ls "$ROOT/seeded" | grep '^C[0-9][0-9]-' | xargs -P ${SEEDALL_PAR:-3} -I{} bash -c 'run {}'
 /venv/bin/python "$ROOT/harness/seedmatrix.py" "$LOGS"
